@@ -103,6 +103,18 @@ PROPS = {
              "thorough": {"runs": 300000, "max_wall_s": 1500, "minimise_s": 60}},
         ],
     },
+    "C06": {
+        "level": "exploration",
+        "rule": "one run = real endpoint (smtp or lmtp, deferred or immediate sender reject) with a real pipeline config placing scripted checks G (global), S (source), D1/D2 (destination blocks) and X (one instance referenced globally and/or inside a destination block); per transaction a verdict (none, ignore, quarantine, reject, temp-reject) is drawn for every check and stage; 1-2 transactions with 1-3 recipients routed to different blocks; the completion order of the parallel check goroutines is chosen by the scheduler (random walk or preemption bound 0-3); a reference model computes the required accept/reject/quarantine outcome from the verdicts alone; non-trivial = at least one non-none verdict was returned",
+        "real": ["internal/msgpipeline (config parser, check_runner with its goroutines - yield-instrumented, routing)", "internal/endpoint/smtp + go-smtp server (SMTP and LMTP paths)", "testing/synctest fake clock"],
+        "stub": ["checks (ScriptedCheck module instances)", "targets (fault-free ScriptedTargets)", "SMTP client", "network (simnet)"],
+        "assumptions": COMMON_ASSUME + ["DMARC policy quarantine and the remote target's refusal of quarantined messages are not exercised in this world"],
+        "parts": [
+            {"pkg": "ep", "world": "ep06",
+             "quick": {"runs": 4000, "max_wall_s": 150, "minimise_s": 20},
+             "thorough": {"runs": 400000, "max_wall_s": 1500, "minimise_s": 60}},
+        ],
+    },
 }
 
 # ---------------------------------------------------------------- manifest metadata
@@ -140,6 +152,10 @@ META = {
             "design_ref": "DESIGN.md section 6 (C03)",
             "level_text": "Seeded exploration of command sequences and fault plans; every delivery object is typestate-monitored, replies are matched with what the targets committed, permits probed after the sessions.",
             "level_note": "Targets/checks/modifiers are scripted; BDAT and AUTH sequences are not generated in this world (AUTH is covered by C14's world)."},
+    "C06": {"technique": "deterministic simulation: scripted checks in global/source/destination scopes behind the real endpoint+pipeline, scheduler-chosen completion order of the check goroutines, verdict reference model as oracle",
+            "design_ref": "DESIGN.md section 6 (C06)",
+            "level_text": "Seeded exploration over check placements, verdict assignments, SMTP/LMTP and completion orders; the outcome is compared with an order-independent reference model, call counts per stage are checked against the documented once-per-message rule.",
+            "level_note": "Fixed configuration family; DMARC and the remote target's quarantine refusal are outside this world."},
 }
 
 NOT_APPLICABLE = [
